@@ -37,6 +37,12 @@ CHECKS = [
               "remove-stack switch, the message must name the first failing parameter of the reference walk and list exactly the bindings "
               "made by the checks that passed before it.",
          note="trusted: reference matcher + PyTree model; relies on typeguard 2.13.3/beartype 0.22.9 visiting parameters in signature order; message format parsed by vf/obs.py"),
+    dict(property_id="C07", level="exploration", design_ref="DESIGN.md §5 C07, §3.4",
+         technique="Hypothesis-generated signatures/callables/descriptors compiled from source text; differential test of the decorated callable against its undecorated twin (identity of arguments, result and exception, call count, metadata, signature, descriptor kind)",
+         text="Generated signatures over all five parameter kinds with names colliding with the wrapper's internals, def/lambda/async callables, "
+              "five descriptor kinds and both typecheckers are decorated and driven with well-typed, ill-typed and non-binding argument lists; "
+              "every observable is compared with the undecorated twin.",
+         note="annotation vocabulary int/str/1-d array/none (typedness decided by construction); beartype's sampling of variadic items avoided by never placing ill-typed values there"),
 ]
 _pending = "check not built yet in this round (will be claimed once its machinery is committed)"
 NOT_APPLICABLE = [dict(property_id=f"C{i:02d}", reason=_pending) for i in range(1, 21)
